@@ -45,6 +45,9 @@ ApplyOp(c, o) ==
                 IF o.index = -1 THEN [res |-> "ok", c |-> Replace(c, o.tag, GEnt(o.tag, Append(its, o.item)))]
                 ELSE IF o.index >= 0 THEN [res |-> "ok", c |-> Replace(c, o.tag, GEnt(o.tag, InsertAt(its, IF o.index > n THEN n ELSE o.index, o.item)))]
                 ELSE [res |-> "unspecified", c |-> c]
+      \* an item that is not a container / dict of integer tags, or spells one tag twice: refused, nothing changes
+      \* (which of the library's message errors is raised is left open: o.bad names the defect for the driver only)
+      [] o.op = "add_group_bad" -> [res |-> "err:refused", c |-> c]
       [] o.op = "set_group" ->
            IF BadTag(o.sp) THEN [res |-> "err:FIXMessageError", c |-> c]
            ELSE IF Has(c, o.tag) THEN [res |-> "err:DuplicatedTagError", c |-> c]
